@@ -25,7 +25,8 @@ ASSUMPTIONS = [
     "parameter values == graph parameter values (1e-9 relative), cost_function_value == reference cost at the held parameter values",
     "a query that raises (C07's subject for the scipy backend) must still leave the state unchanged",
     "same question twice: values within 0.02 sigma / 2 % (matrices: 2 % of sqrt(C_ii C_jj)); profiles and contours compared point-wise at 1e-2",
-    "scipy contours (seconds each) only in the thorough tier",
+    "scipy heuristic-grid contours (seconds each) inside generated histories only in the thorough tier; the scipy-only algorithm='beacon' contour (20-60 s each) has "
+    "its own sub-check 'beacon' with one generated history per quick run (seeded change C08-g was caught in the thorough tier only before)",
 ]
 
 QUERIES = ["cov", "cor", "hessian", "hessian_inv", "asym", "profile_sigma", "profile_cl", "profile_lowhigh", "profile_mix", "contour", "contour_beacon", "band", "report", "report_asym",
@@ -65,6 +66,16 @@ def strat(draw, tier="quick"):
                                                   "mix": st.sampled_from(["low", "high", "low+cl", "high+cl", "low+sigma", "high+sigma", "low+high+cl"])}),
                         min_size=2, max_size=7 if tier == "quick" else 14))
     return {"spec": spec, "ops": ops}
+
+
+@st.composite
+def strat_beacon(draw, tier="quick"):
+    # the scipy-only algorithm='beacon' contour followed by cheap read-backs and one more excursion: short linear fits keep one contour at ~20 s
+    spec = draw(S.xy_spec(families=["line", "expbase"], costs=("chi2",), n_sources=(1, 2), x_errors=False, model_sources=False, fixed=False, constraints=False,
+                          limits=draw(st.booleans()), minimizers=("scipy",)))
+    op = {"par": draw(st.integers(0, 1)), "k": draw(st.floats(0.5, 2.5)), "cl": 0.6827, "mix": "low+cl"}
+    tail = draw(st.lists(st.sampled_from(["cov", "values", "gof", "report", "asym", "profile_sigma", "result_dict"]), min_size=1, max_size=3))
+    return {"spec": spec, "ops": [dict(op, q="contour_beacon")] + [dict(op, q=q) for q in tail]}
 
 
 def _snapshot(fit):
@@ -301,4 +312,5 @@ KNOWN = {
 
 SUBS = [
     Sub("queries", lambda tier: strat(tier), run, quick=640, thorough=8000, about="post-fit query histories with state invariant against the post-fit snapshot"),
+    Sub("beacon", lambda tier: strat_beacon(tier), run, quick=1, thorough=24, about="scipy algorithm='beacon' contour first, then read-backs / excursions, same state invariant"),
 ]
